@@ -144,6 +144,60 @@ def child_line_memo_key_is_complete(prog, rep, R):
     rep.floor(R, "constructions of the child-line memo key", n, 1)
 
 
+def _subst_args(text, body, site):
+    """canonical text of a callee expression with `argN` replaced by the canonical text of the call site's N-th argument"""
+    def rep_(m):
+        k = int(m.group(1))
+        return canon(body, site.args[k - 1]) if 0 < k <= len(site.args) else m.group(0)
+    return re.sub(r"\barg(\d+)\b", rep_, text)
+
+
+def tl_content_values(prog, body):
+    """Where `body` produces a TokenLength and what its `content` is, as canonical text in terms of `body`: [(bb, text)].  Either the
+    aggregate is built here, or by a workspace helper that returns one (`TokenLength::of(token, spaces)`): the helper's expression is
+    then rewritten in terms of the call's arguments."""
+    TL = OLF + "TokenLength"
+    out = []
+    for bb, i, st in body.stmts():
+        if st["k"] == "assign" and st["rv"]["k"] == "aggregate" and norm(st["rv"].get("adt", "")) == TL and "content" in st["rv"].get("fields", []):
+            out.append((bb, canon(body, st["rv"]["ops"][st["rv"]["fields"].index("content")])))
+    for c in body.calls():
+        if norm(str(c.t.get("dst_ty", ""))) != TL:
+            continue
+        cb = prog.body(c.resolved or c.callee or "")
+        if cb is None or not cb.crate.startswith("pasfmt") or cb.npath == body.npath:
+            continue
+        for _, text in tl_content_values(prog, cb):
+            out.append((c.bb, _subst_args(text, body, c)))
+    return out
+
+
+def tl_content_stores(prog, of):
+    """Places of `of` that overwrite a cached TokenLength.content: a store into the field, or a store of a whole TokenLength through a
+    reference (`*token_length = TokenLength::of(..)`): [(bb, canonical text of the new content)]."""
+    TL = OLF + "TokenLength"
+    out = []
+    for a in prog.field_accesses(TL, "content", within={of.npath}):
+        if a[3].startswith("write") and a[4]["rv"]["k"] in ("cast", "use"):
+            out.append((a[1], canon(of, a[4]["rv"]["op"])))
+    made = dict(tl_content_values(prog, of))
+    og = None
+    for bb, i, st in of.stmts():
+        if st["k"] != "assign" or not st["dst"]["p"] or st["dst"]["p"][-1]["k"] != "deref":
+            continue
+        ty = of.locals[st["dst"]["l"]]["ty"].replace("&mut ", "").replace("&", "").strip()
+        if norm(ty) != TL:
+            continue
+        if st["rv"]["k"] == "aggregate" and "content" in st["rv"].get("fields", []):
+            out.append((bb, canon(of, st["rv"]["ops"][st["rv"]["fields"].index("content")])))
+        elif st["rv"]["k"] == "use" and st["rv"]["op"]["k"] in ("copy", "move"):
+            og = og or Origins(of)
+            for o in og.of_operand(st["rv"]["op"]):
+                if o[0] in ("call", "agg") and o[1] in made:
+                    out.append((bb, made[o[1]]))
+    return out
+
+
 def width_measures_agree(prog, rep, R):
     """Every place that measures token text for the width comparison uses the same measure: the first fill of the per-token length
     cache, its refresh after the multi-line strings were rewritten, and the length of a multi-line token's last line.  If they
@@ -158,27 +212,34 @@ def width_measures_agree(prog, rep, R):
     def measure_of(text):
         m = re.match(r"^(?:\w+:)?([\w:]+)\(get_content\(", text)
         return m.group(1).split("::")[-1] if m else None
+    stores = tl_content_stores(prog, of)
+    store_bbs = {bb for bb, _ in stores}
     for b2 in [of] + list(prog.closures_of(of.npath)):
-        for bb, i, st in b2.stmts():
-            if st["k"] == "assign" and st["rv"]["k"] == "aggregate" and norm(st["rv"].get("adt", "")) == TL and "content" in st["rv"].get("fields", []):
-                v = canon(b2, st["rv"]["ops"][st["rv"]["fields"].index("content")])
-                sites["first fill of the length cache"] = measure_of(v) or v[:60]
-    for a in prog.field_accesses(TL, "content", within={of.npath}):
-        if a[3].startswith("write") and a[4]["rv"]["k"] in ("cast", "use"):
-            v = canon(of, a[4]["rv"]["op"])
-            sites["refresh after the string rewrite"] = measure_of(v) or v[:60]
+        for bb, v in tl_content_values(prog, b2):
+            if b2 is of and (bb in store_bbs or any(v == sv for _, sv in stores)):
+                continue                      # the value built for the refresh
+            sites["first fill of the length cache"] = UNIT_OF.get(measure_of(v), measure_of(v)) or v[:60]
+    for bb, v in stores:
+        sites["refresh after the string rewrite"] = UNIT_OF.get(measure_of(v), measure_of(v)) or v[:60]
     g = prog.body(OLF + "InternalOptimisingLineFormatter::get_multiline_token_last_line_length")
     if g is not None:
-        fam = [g] + [x for x in prog.bodies.values() if x.npath.startswith(g.npath + "::")]
         names = set()
-        for x in fam:
-            for c in x.calls():
-                nm = (c.callee or "").split("::")[-1]
-                cargs = " ".join(str(t) for t in (c.t.get("callee_args") or []))
-                # what turns a line (&str) into a number
-                dty = str(c.t.get("dst_ty", ""))
-                if dty in ("usize", "u32", "u64", "u16") and c.args and "str" in (x.local_ty(c.args[0]["place"]["l"]) if c.args[0]["k"] in ("copy", "move") else ""):
-                    names.add(nm)
+
+        def collect(b3, depth=0):
+            fam = [b3] + [x for x in prog.bodies.values() if x.npath.startswith(b3.npath + "::")]
+            for x in fam:
+                for c in x.calls():
+                    nm = (c.callee or "").split("::")[-1]
+                    # what turns a text (&str) into a number (a length or a byte offset)
+                    dty = str(c.t.get("dst_ty", ""))
+                    num = dty in ("usize", "u32", "u64", "u16") or dty in ("core::option::Option<usize>", "core::option::Option<u32>")
+                    from_str = bool(c.args) and c.args[0]["k"] in ("copy", "move") and bool(re.match(r"^&('\w+ )?str$", x.local_ty(c.args[0]["place"]["l"])))
+                    cb3 = prog.body(c.resolved or c.callee or "")
+                    if cb3 is not None and cb3.crate.startswith("pasfmt") and cb3.npath.startswith(OLF) and from_str and depth < 2 and cb3.npath != b3.npath:
+                        collect(cb3, depth + 1)         # a helper that measures: what it uses
+                    elif num and from_str:
+                        names.add(UNIT_OF.get(nm, nm))
+        collect(g)
         sites["last line of a multi-line token"] = "+".join(sorted(names)) or "?"
     vals = set(sites.values())
     rep.check(len(sites) == 3 and len(vals) == 1, R, "width-measures-agree",
@@ -210,6 +271,13 @@ def consolidator_commits_atomically(prog, rep, R):
     for bb, i, st in b.stmts():
         if st["k"] == "assign" and st["dst"]["l"] == 0 and not st["dst"]["p"] and st["rv"]["k"] == "use":
             ret_sources.append((bb, {o[:3] for o in og.of_operand(st["rv"]["op"])}))
+        elif st["k"] == "assign" and st["dst"]["l"] == 0 and st["rv"]["k"] == "aggregate":
+            # `Some(directives)`, `(directives, changed)`, `Ok(..)`: the list travels inside the returned value
+            srcs = set()
+            for op in st["rv"]["ops"]:
+                if op["k"] in ("copy", "move"):
+                    srcs |= {o[:3] for o in og.of_operand(op)}
+            ret_sources.append((bb, srcs))
     for c in b.calls():
         if c.t["dst"]["l"] == 0 and not c.t["dst"]["p"]:
             ret_sources.append((c.bb, {("call", c.bb, c.callee)}))
@@ -235,6 +303,10 @@ def consolidator_commits_atomically(prog, rep, R):
                   "voids the lines of directives that were merged into nothing — they keep the line breaks of the input", where=leaks[0].where() if leaks else None,
                   instance={"pushes": len(cs), "leaking": len(leaks)})
     rep.floor(R, "directive lists of expand_line that reach the caller", n, 1)
+
+
+# the unit in which a std function counts text: byte lengths and byte offsets are the same measure
+UNIT_OF = {"len": "bytes", "rfind": "bytes", "find": "bytes"}
 
 
 OLF_SEARCH = "pasfmt_core::rules::optimising_line_formatter::InternalOptimisingLineFormatter::find_optimal_solution"
@@ -1400,10 +1472,35 @@ def multiline_measure(prog, rep, R):
     from progress import dominating_variant_facts
     # M-functions: bodies of the wrapper that look at the last line (`lines()`) of a token under a TextLiteral/Comment type test
     mfun = set()
+
+    def cuts_lines(b3, depth=0, seen=()):
+        """b3 (with its closures and the workspace functions it calls) looks for line ends in a text: `lines()`, or a search / split for '\n'"""
+        fam = [b3] + [x for x in prog.bodies.values() if x.npath.startswith(b3.npath + "::")]
+        for x in fam:
+            for c in x.calls():
+                cal = c.callee or ""
+                if cal == "core::str::lines":
+                    return True
+                if cal.startswith("core::str::") and cal.split("::")[-1] in ("rfind", "find", "rsplit", "split", "rsplit_once", "split_once", "rsplit_terminator", "split_terminator", "split_inclusive", "rmatch_indices", "match_indices") \
+                        and any(a["k"] == "const" and (a.get("char") == 10 or a.get("int") == 10 or a.get("str") == "\n") for a in c.args[1:]):
+                    return True
+                if cal.startswith("memchr::") and any(a["k"] == "const" and a.get("int") == 10 for a in c.args):
+                    return True
+                cb3 = prog.body(c.resolved or cal)
+                if cb3 is not None and cb3.crate.startswith("pasfmt") and depth < 2 and cb3.npath not in seen and cb3.npath != b3.npath:
+                    if cuts_lines(cb3, depth + 1, seen + (b3.npath,)):
+                        return True
+        return False
     for b2 in prog.bodies.values():
         if not b2.npath.startswith(OLF):
             continue
-        for c in b2.calls_to("core::str::lines"):
+        for c in b2.calls():
+            cal = c.callee or ""
+            if not c.args or "get_content(" not in canon(b2, c.args[0]):
+                continue
+            cb2 = prog.body(c.resolved or cal)
+            if not (cal == "core::str::lines" or (cb2 is not None and cb2.crate.startswith("pasfmt") and cuts_lines(cb2))):
+                continue
             fx = dominating_variant_facts(prog, b2, c.bb)
             if any("get_token_type(" in f[0] and "TextLiteral" in f[2] for f in fx):
                 mfun.add(b2.npath)
@@ -1504,14 +1601,14 @@ def check_c09(prog, rep, tier, cfg):
         makers = [bb for bb, i, s in of.stmts() if s["k"] == "assign" and s["rv"]["k"] == "aggregate" and norm(s["rv"].get("adt", "")) == TL]
         mk_cl = [b2 for b2 in prog.closures_of(of.npath) if any(s["k"] == "assign" and s["rv"]["k"] == "aggregate" and norm(s["rv"].get("adt", "")) == TL for _, _, s in b2.stmts())]
         fls = wrapping_calls(prog, of)
-        stores = [a for a in prog.field_accesses(TL, "content", within={of.npath}) if a[3].startswith("write")]
+        stores = tl_content_stores(prog, of)
+        mk_cl = [b2 for b2 in prog.closures_of(of.npath) if tl_content_values(prog, b2)]
         ok = len(fms) == 1 and len(fls) == 2 and len(mk_cl) == 1
         good = False
         if ok:
-            for (b2, bb, i, kind, s) in stores:
+            for bb, val in stores:
                 conds = dominating_conditions(of, bb)
                 after_rewrite = any(c[0] == "call" and c[1].endswith("format_multiline_strings") and c[3] is True for c in conds)
-                val = canon(of, s["rv"]["op"]) if s["rv"]["k"] in ("cast", "use") else ""
                 from_content = "len(get_content(" in val and "get_token(" in val
                 in_token_loop = any(bb in L and any((c.callee or "").endswith("Iterator::next") and "get_tokens(" in canon(of, c.args[0]) for c in of.calls() if c.bb in L) for L in of.loops().values())
                 reflow = [f for f in fls if of.can_reach_avoiding(bb, {f.bb}, set()) and not of.can_reach_avoiding(f.bb, {bb}, set())]
